@@ -182,10 +182,14 @@ pub fn get_margin_ratio_calc_option(
         unrealized_pnl,
     } = get_position_notional_unrealized_pnl(deps, &position, calc_option)?;
 
-    // a dust position can be worth less than one unit at this price: there is no ratio to speak of
-    if position_notional.is_zero() {
-        return Ok(Integer::zero());
-    }
+    // a dust position can be worth less than one unit at this price: there is no ratio to speak
+    // of, but its sign is that of the remaining equity - taking one unit as the notional keeps it
+    // (a ratio of zero would make a well-margined remainder liquidatable)
+    let position_notional = if position_notional.is_zero() {
+        Uint128::new(1u128)
+    } else {
+        position_notional
+    };
 
     let remain_margin = calc_remain_margin_with_funding_payment(deps, position, unrealized_pnl)?;
 
